@@ -27,7 +27,7 @@ ASSUMPTIONS = [
     "tolerances: conditional mean within 2e-3 posterior sd + 1e-4 relative (float32 sampler state; worst deviation seen is reported as max_dev_*), Q and rates relative 1e-3, rate stabiliser in [0, 1e-3]",
     "a failed Cholesky leaves the element unchanged; such events are counted and skipped",
 ]
-REQUIRED = {"models_copied_before_more_data_arrived": {"quick": 40, "thorough": 800}, "injected_failures_of_the_multivariate_draw": {"quick": 100, "thorough": 2000}, 
+REQUIRED = {"chains_whose_prior_state_predicts_beyond_10_when_the_data_arrive": {"quick": 3, "thorough": 60}, "chains_stepped_on_the_prior_before_the_first_data": {"quick": 40, "thorough": 800}, "models_copied_before_more_data_arrived": {"quick": 40, "thorough": 800}, "injected_failures_of_the_multivariate_draw": {"quick": 100, "thorough": 2000}, 
     "draws_checked": {"quick": 30000, "thorough": 600000},
     "draws_W0": {"quick": 500, "thorough": 10000}, "draws_V0": {"quick": 800, "thorough": 16000}, "draws_W": {"quick": 500, "thorough": 10000},
     "draws_V2": {"quick": 800, "thorough": 16000}, "draws_V1": {"quick": 800, "thorough": 16000}, "draws_gamma": {"quick": 4000, "thorough": 80000},
@@ -442,6 +442,25 @@ def run_shard(rec, tier, seed, shard, nshards):
             later = None
             try:
                 model = SparseDrugCombo(experiment_space=ExperimentSpace.from_screen(screen), n_embedding_dimensions=D)
+                if sub is not None and rng.random() < 0.35:
+                    # the sampler has been running on the prior for a while (a model created and stepped before the first
+                    # results arrived): its state is a draw from the prior - embeddings and effects of any size - when
+                    # the data come in
+                    model.set_rng(np.random.default_rng(int(rng.integers(0, 2**31))))
+                    # (half of these chains are steered: the data arrive at the moment the prior state predicts a value
+                    # beyond +-10 logits for some training row - far outside anything a viability can be)
+                    steer_ = bool(rng.random() < 0.7)
+                    extreme_ = False
+                    for _ in range(int(rng.integers(20, 160)) if not steer_ else 600):
+                        model.step()
+                        if steer_:
+                            mu0_ = np.asarray(model.get_model_state().predict_conditional_mean(sub), dtype=float)
+                            if np.any(np.abs(mu0_) > 10):
+                                extreme_ = True
+                                break
+                    rec.count("chains_stepped_on_the_prior_before_the_first_data")
+                    if extreme_:
+                        rec.count("chains_whose_prior_state_predicts_beyond_10_when_the_data_arrive")
                 if sub is not None:
                     if sub.size >= 2 and rng.random() < 0.35:
                         # the observations arrive in two batches, the second one after some sampler steps
